@@ -3,6 +3,7 @@ SPECIFICATION Spec
 CONSTANTS
   Txs = {1, 2, 3}
   Keys = {1}
+  KsSplit = 100
   MaxOpsPerTx = 1
   Methods = {"get", "insert"}
   SingleWriter = FALSE
